@@ -17,11 +17,15 @@ def main():
     violations, evals, nontriv = [], 0, 0
     rnd = random.Random(seed)
 
+    def segs(p):
+        return [x for x in p.split("/") if x != ""]  # "/" is the empty segment list
+
     def spec(lst):
         out = set()
         for p in lst:
             for q in lst:
-                if p != q and q.startswith(p + "/"):
+                a, b = segs(p), segs(q)
+                if p != q and len(a) < len(b) and b[: len(a)] == a:
                     out.add(p)
         return out
 
@@ -56,6 +60,13 @@ def main():
     for base in (["/model", "/model.meta", "/model/weights"], ["/a/model", "/a/model-v2", "/a/model/w", "/b"], ["/m", "/m+", "/m/x", "/m 1"]):
         for perm in itertools.permutations(base):
             check(perm)
+    # the root path "/" is a prefix of every other path
+    for n in (1, 2, 3):
+        for _ in range(300):
+            base = ["/"] + rnd.sample(paths, n)
+            rnd.shuffle(base)
+            check(tuple(base))
+    check(("/",))
     # the classic cases in every order
     for base in (["/f", "/h", "/f/g"], ["/f/g", "/h", "/f"], ["/f/g/h", "/g", "/h", "/f/g"]):
         for perm in itertools.permutations(base):
